@@ -5,7 +5,7 @@
    by the oracle (tested_only). *)
 From Coq Require Import String ZArith Bool Arith List.
 From SV Require Import Names NamesFacts ListFacts Rep Fresh Complex Atomic RepInv Homology Filtration FiltProofs Shapes SnapProofs.
-From SV Require Closed ClosedReach.
+From SV Require Closed ClosedReach Listing.
 Import ListNotations.
 
 Theorem C14_maxOrder_refuted : maxOrder (f_rep witness) <> maxOrder (snap_rep witness).
@@ -58,3 +58,23 @@ Theorem C14_snapshot_orders :
   forall s, f_contains f s = true -> orderOf c s = orderOf (f_rep f) s.
 Proof. exact snap_orders_agree. Qed.
 Print Assumptions C14_snapshot_orders.
+
+(* LISTINGS AND EULER CHARACTERISTIC, every filtration whose complex is closed (every filtration history:
+   C13_filtration_histories_are_closed): the snapshot taken at the current index lists -- per order, and as a
+   whole, in the same sequence -- exactly what the filtration's index-aware simplices() lists, and
+   the filtration's eulerCharacteristic() is the snapshot's *)
+Theorem C14_snapshot_lists_per_order :
+  forall hp f uid hp' c, Closed.cinv (f_rep f) -> copy_new hp (f_view f) uid = (hp', c, Ok tt) ->
+  forall j, simplicesOfOrder c j = filter (f_contains f) (simplicesOfOrder (f_rep f) j).
+Proof. exact Listing.snap_listing_per_order. Qed.
+Print Assumptions C14_snapshot_lists_per_order.
+Theorem C14_snapshot_lists_what_the_filtration_lists :
+  forall hp f uid hp' c, Closed.cinv (f_rep f) -> copy_new hp (f_view f) uid = (hp', c, Ok tt) ->
+  simplices c false = f_simplices f false.
+Proof. exact Listing.snap_listing. Qed.
+Print Assumptions C14_snapshot_lists_what_the_filtration_lists.
+Theorem C14_snapshot_euler_characteristic :
+  forall hp f uid hp' c, Closed.cinv (f_rep f) -> copy_new hp (f_view f) uid = (hp', c, Ok tt) ->
+  eulerCharacteristic c = f_eulerCharacteristic f.
+Proof. exact Listing.snap_euler. Qed.
+Print Assumptions C14_snapshot_euler_characteristic.
